@@ -5,13 +5,13 @@ CONSTANTS
   BUGGY_F3 = FALSE
   BUGGY_F15 = FALSE
   BUGGY_F16 = FALSE
-  BUGGY_F18 = TRUE
+  BUGGY_F18 = FALSE
   BUGGY_F20 = FALSE
   BUGGY_F19 = FALSE
-  KeySet <- K5L
-  BuildKeys <- K5L
-  MaxW = 2
-  CurArgs <- ArgsL
+  KeySet <- K7m
+  BuildKeys <- K7m
+  MaxW = 4
+  CurArgs <- Args7
 INVARIANTS CursorOK
 PROPERTY EaAct
 VIEW View
